@@ -188,9 +188,9 @@ def run_case(case, ctx):
     exact = R == "Q"
     zero = Fr(0)
 
-    def same(have, w):
+    def same(have, w, trunc=True):
         if exact:
-            return lib.same("Q", have, w, exact=True)
+            return lib.same("Q", have, w, exact=True, trunc=trunc)
         return close2(lib.have_value(R, have), w, 1e-8, 1e-12)
 
     strings = list(GG.strings_upto(alpha, case["maxlen"]))
@@ -259,7 +259,7 @@ def run_case(case, ctx):
                 ok, v = ctx.call(APIS[1], c2, Bm, tuple(bs))
                 if ok:
                     kind = "value" if bs in byte_strings else ("truncated-encoding-accepted" if bs in trunc else "foreign-bytes-accepted")
-                    ctx.check(APIS[1], same(v, w), f"to_bytes/{kind}", c2, {"bytes": list(bs), "have": v, "want": w})
+                    ctx.check(APIS[1], same(v, w, trunc=False), f"to_bytes/{kind}", c2, {"bytes": list(bs), "have": v, "want": w})
             # --- merged converted automata (cross-talk monitor)
             ok, A2 = ctx.call(APIS[3], case, lambda: lib.build_wfsa(case["m2"], R, base.WFSA))
             if ok:
